@@ -30,3 +30,4 @@ Definition eps12 : Q := 1 # 1000000000000.
 Definition eps9 : Q := 1 # 1000000000.
 Definition eps6 : Q := 1 # 1000000.
 Definition eps14 : Q := 1 # 100000000000000.
+Definition eps15 : Q := 1 # 1000000000000000.
